@@ -290,6 +290,10 @@ pub struct Schedule {
     pos: usize,
     /// global step budget of the case (livelock guard)
     pub steps_left: u64,
+    /// when set, a schedule byte of 255 advances the paused clock by 1 ms while tasks are
+    /// still runnable ("execution takes time")
+    pub jitter: bool,
+    pub advances: Vec<u64>,
     pub decisions: u64,
     pub nonzero_choices: u64,
 }
@@ -300,8 +304,18 @@ impl Schedule {
             bytes,
             pos: 0,
             steps_left: 6_000,
+            jitter: false,
+            advances: vec![],
             decisions: 0,
             nonzero_choices: 0,
+        }
+    }
+    fn peek_jitter(&mut self) -> bool {
+        if self.jitter && self.pos < self.bytes.len() && self.bytes[self.pos] == 255 {
+            self.pos += 1;
+            true
+        } else {
+            false
         }
     }
     fn next(&mut self, len: usize) -> usize {
@@ -343,6 +357,7 @@ pub async fn drive(
     mut done: impl FnMut() -> bool,
     mut after_step: impl FnMut(u64, u64),
 ) -> DriveEnd {
+    let on_advance = || crate::core::log(crate::core::Ev::Note("advance".into()));
     let mut steps = 0u64;
     loop {
         if done() {
@@ -367,6 +382,12 @@ pub async fn drive(
                     return DriveEnd::Stuck;
                 }
             }
+        }
+        if sched.peek_jitter() {
+            tokio::time::advance(std::time::Duration::from_millis(1)).await;
+            sched.advances.push(0);
+            on_advance();
+            continue;
         }
         let pick = runnable[sched.next(runnable.len())];
         gate.grant(pick);
